@@ -319,6 +319,12 @@ func (in *labInst) startBin(cfg labCfg, race bool, env ...string) error {
 		return err
 	}
 	cmd := exec.Command(path, "--config", yml, "--log-level", "Error")
+	for _, e := range env {
+		// VERIF_NOFILE=n: the binary runs under a descriptor limit of n (ulimit -n)
+		if strings.HasPrefix(e, "VERIF_NOFILE=") {
+			cmd = exec.Command("/bin/sh", "-c", "ulimit -n "+strings.TrimPrefix(e, "VERIF_NOFILE=")+" && exec \"$0\" \"$@\"", path, "--config", yml, "--log-level", "Error")
+		}
+	}
 	cmd.Stdout, cmd.Stderr = lf, lf
 	cmd.Env = append(os.Environ(), "GORACE=halt_on_error=0 exitcode=66")
 	cmd.Env = append(cmd.Env, env...)
